@@ -16,7 +16,7 @@ from harness import lattice as L
 from harness import ws
 from harness.core import MachineryError, run_tlc, setup_repo_imports
 
-INVS = ["Ptm4OK", "BboxOK", "OverlapRejected", "BandOK", "Ptm5OK"]
+INVS = ["Ptm4OK", "MissingIsSwell", "BboxOK", "OverlapRejected", "BandOK", "Ptm5OK"]
 DEPTH = 40.0
 
 
@@ -97,10 +97,15 @@ def run(ctx):
         try:
             if mode == "ptm4":
                 creal = np.asarray(celerity(freq, DEPTH), float)      # the library's own celerity: equality cases are bit-exact by construction
-                u = np.array([real_u(x, v["C"], list(creal)) for x in sel])
-                dirs = xr.DataArray(np.array(D, float), coords={"dir": np.array(D, float)}, dims=("dir",))
+                # MISSING components (MC_Split!MISSING) are realised as NaN: in the wind speed, in the wind direction (with a speed that
+                # would make the bin wind sea), or - when the whole record is missing - in the depth
+                miss = [x == -999 for x in sel]
+                how = ctx.rng.choice(("wspd", "wdir", "dpt" if all(miss) else "wspd"))
+                u = np.array([(np.nan if how == "wspd" else 3.0 * float(creal.max())) if m else real_u(x, v["C"], list(creal)) for x, m in zip(sel, miss)])
+                wd = np.array([np.nan if (m and how == "wdir") else float(d) for d, m in zip(D, miss)])
+                dirs = xr.DataArray(wd, coords={"dir": np.array(D, float)}, dims=("dir",))
                 wspd = xr.DataArray(u, coords={"dir": np.array(D, float)}, dims=("dir",))
-                out = da.spec.partition.ptm4(wspd=wspd, wdir=dirs, dpt=DEPTH, agefac=1.0)
+                out = da.spec.partition.ptm4(wspd=wspd, wdir=dirs, dpt=(np.nan if (all(miss) and how == "dpt") else DEPTH), agefac=1.0)
                 got = np.asarray(out.transpose("part", "freq", "dir").values, float)
                 exp = arr(v["res"])
             elif mode == "bbox":
